@@ -23,6 +23,7 @@ const (
 
 // c09Extra: rules added for round-3 seeded changes.
 func c09Extra(c *Ctx) {
+	createKeepsBalance(c)
 	// the gas handed to a created frame is the gas charged to the creating frame: charging less creates gas (gas used then
 	// exceeds what was bought, the pool grows)
 	for _, name := range []string{"opCreate", "opCreate2"} {
